@@ -235,6 +235,26 @@ func registerEnv(ip *Interp) {
 		return r[1]
 	})
 	vs := func(name string, f Intrinsic) { ip.intrinsics[symPkg+name] = f }
+	// Provide(key, value): the harness hands a prepared value to an environment stub
+	vs("Provide", func(ip *Interp, fr *frame, a []Value) Value {
+		k, _ := a[0].(Str).Concrete()
+		ip.provided[k] = a[1]
+		return nil
+	})
+	// packages.Load: contract stub returning the root packages the harness
+	// prepared (an arbitrary import DAG of harness-built *packages.Package values)
+	ip.regStub("golang.org/x/tools/go/packages.Load", func(ip *Interp, fr *frame, a []Value) Value {
+		v, ok := ip.provided["packages.Load"]
+		if !ok {
+			panic(unsupported("packages.Load without a provided result"))
+		}
+		return Tuple{v.(Iface).V, Iface{}}
+	})
+	// dirhash.HashDir: arbitrary but fixed text per directory
+	ip.regStub("golang.org/x/mod/sumdb/dirhash.HashDir", func(ip *Interp, fr *frame, a []Value) Value {
+		dir, _ := a[0].(Str).Concrete()
+		return Tuple{mkStr(ip.ctx, "h1:stub:"+dir), Iface{}}
+	})
 	vs("ParsedSources", func(ip *Interp, fr *frame, a []Value) Value {
 		arr := make([]Value, 0, len(ip.parsed))
 		for _, p := range ip.parsed {
